@@ -2,9 +2,9 @@
    the size of the tree, for bodies and commands at once: the items of a well-formed body
    (Spec/CmdSyntax.v), followed by "{" and an item that ends the list, are read by itemList
    as that body. *)
-From Soy Require Import Model.Bytes Model.Outcome Model.Ast Model.Token Model.RawText Model.ExprParser Model.Parser Generated.Tables
+From Soy Require Import Model.Bytes Model.Outcome Model.Num Model.Ast Model.Token Model.RawText Model.ExprParser Model.Parser Generated.Tables
   Spec.ExprSyntax Spec.CmdSyntax Proofs.ExprParserRules Proofs.ExprParserProofs Proofs.CmdRoundtripBase Proofs.CmdRoundtripRules
-  Proofs.CmdRoundtripPrint Proofs.CmdRoundtripSwitch Proofs.CmdRoundtripCall Proofs.CmdRoundtripMsg.
+  Proofs.CmdRoundtripPrint Proofs.CmdRoundtripSwitch Proofs.CmdRoundtripCall Proofs.CmdRoundtripMsg Proofs.CmdRoundtripPlural.
 From Soy Require Import Model.AstPrint Model.AstPrintCmd.
 From Coq Require Import Lia.
 Open Scope N_scope.
@@ -33,6 +33,22 @@ Lemma cmd_toks_switch p v cases :
 Proof.
   reflexivity.
 Qed.
+
+Lemma sw_toks_app a c : sw_toks (a ++ c) = sw_toks a ++ sw_toks c.
+Proof.
+  induction a as [|x a IH]; [reflexivity|]. destruct x; cbn [app sw_toks]; try exact IH. rewrite IH, <- !app_assoc. reflexivity.
+Qed.
+Lemma sw_toks_plural dflt : forall cases, forallb is_pcase cases = true ->
+  sw_toks (map sw_of_case cases ++ [sw_default dflt]) = pcases_toks blist_toks cases ++ plural_default_head ++ blist_toks dflt.
+Proof.
+  induction cases as [|c r IH]; intros Hp.
+  - cbn [map app sw_toks sw_default body_toks pcases_toks]. rewrite app_nil_r. reflexivity.
+  - cbn [forallb] in Hp. apply andb_true_iff in Hp. destruct Hp as [Hc Hr]. destruct c; try discriminate Hc.
+    cbn [map app sw_of_case sw_toks body_toks pcases_toks]. fold (pcases_toks blist_toks r). rewrite (IH Hr).
+    unfold plural_case_head. cbn [map sep_join]. rewrite <- !app_assoc. reflexivity.
+Qed.
+Lemma csize_sw_of_case c : csize (sw_of_case c) = csize c.
+Proof. destruct c; reflexivity. Qed.
 
 Fixpoint params_toks (l : list node) : list tok :=
   match l with
@@ -160,47 +176,12 @@ Qed.
 
 End WfMirror.
 
-(* ---- size ---- *)
-Fixpoint csize (n : node) : nat :=
-  match n with
-  | NList _ ns => S (list_sum (map csize ns))
-  | NLog _ x => S (csize x)
-  | NLetContent _ _ x => S (csize x)
-  | NIf _ conds => S (list_sum (map csize conds))
-  | NIfCond _ _ x => S (csize x)
-  | NFor _ _ _ x ie => S (csize x + match ie with Some y => csize y | None => 0 end)
-  | NSwitch _ _ cases => S (list_sum (map csize cases))
-  | NSwitchCase _ _ x => S (csize x)
-  | NCall _ _ _ _ params => S (list_sum (map csize params))
-  | NParamContent _ _ x => S (csize x)
-  | NMsg _ _ _ _ children => S (S (list_sum (map csize children)))
-  | NMsgPlaceholder _ _ c => S (csize c)
-  | _ => 1%nat
-  end.
-
-Lemma csize_pos x : (1 <= csize x)%nat.
-Proof. destruct x; cbn [csize]; lia. Qed.
-Lemma unplz_size : forall l run,
-  (list_sum (map csize (unplz run l)) <= match run with [] => 0 | _ :: _ => 1 end + list_sum (map csize l))%nat.
-Proof.
-  induction l as [|x r IH]; intros run.
-  - cbn [unplz]. destruct run; cbn; lia.
-  - cbn [unplz]. destruct (is_textlike x).
-    + specialize (IH (run ++ [x])). pose proof (csize_pos x). cbn [map list_sum].
-      assert (E : (match run ++ [x] with [] => 0 | _ :: _ => 1 end = 1)%nat) by (destruct run; reflexivity). rewrite E in IH.
-      change (list_sum (csize x :: map csize r)) with (csize x + list_sum (map csize r))%nat. clear E. revert IH. generalize (list_sum (map csize (unplz (run ++ [x]) r))). intros k IH. destruct run; lia.
-    + specialize (IH []). rewrite map_app, list_sum_app. cbn [map list_sum].
-      assert (csize (unwrap x) <= csize x)%nat by (destruct x; cbn [unwrap csize]; lia).
-      change (list_sum (csize (unwrap x) :: map csize (unplz [] r))) with (csize (unwrap x) + list_sum (map csize (unplz [] r)))%nat.
-      change (list_sum (csize x :: map csize r)) with (csize x + list_sum (map csize r))%nat.
-      destruct run; cbn [run_node map]; [change (list_sum []) with 0%nat | change (list_sum [csize (NRawText (run_pos (n :: run)) (run_text (n :: run)))]) with 1%nat]; cbv iota in IH; lia.
-Qed.
-
+(* ---- size: [csize] is in Proofs/CmdRoundtripMsg.v ---- *)
 Lemma csize_if_cons p c r : csize (NIf p (c :: r)) = S (csize c + list_sum (map csize r)).
 Proof. reflexivity. Qed.
 
 (* ---- until lists that no command of a body can be mistaken for ---- *)
-Definition start_types : list N := expr_start_types ++ [pit_Debugger; pit_Log; pit_Let; pit_If; pit_For; pit_Switch; pit_Call; pit_Css; pit_Msg].
+Definition start_types : list N := expr_start_types ++ [pit_Debugger; pit_Log; pit_Let; pit_If; pit_For; pit_Switch; pit_Call; pit_Css; pit_Msg; pit_Plural].
 Definition good_until (until : list N) : bool :=
   negb (one_of pit_LeftDelim until) && negb (one_of pit_Text until) && forallb (fun ty => negb (one_of ty until)) start_types.
 
@@ -540,16 +521,16 @@ Qed.
 (* ---- {msg} ---- *)
 Lemma ok_msg m p id meaning desc children : (csize (NMsg p id meaning desc children) <= S n)%nat -> CmdOK m (NMsg p id meaning desc children).
 Proof.
-  intros Hsz Hwf Hrt l2. destruct (proj1 (wf_cmd_msg lexq nameok _ _ _ _ _ _) Hwf) as (Em & Eid & Hqm & Hqd & Hwc). subst m id. clear Hwf.
+  intros Hsz Hwf Hrt l2. destruct (proj1 (wf_cmd_msg lexq nameok _ _ _ _ _ _) Hwf) as (Em & Eid & Hqm & Hqd & Hwc & Honly). subst m id. clear Hwf.
   rewrite cmd_toks_msg. cbn [app]. do 2 eexists. split; [reflexivity|]. split; [cbn; tauto|].
-  set (ns0 := unplz [] children).
+  destruct (unplz_all lexq nameok _ children [] (le_n _) Hwc) as (Etoks0 & Eplz & (Hw1 & Hw2) & Hsz0). cbv iota in Hsz0. cbn [app] in Eplz.
+  set (ns0 := unplz [] children) in *.
   set (contents := NList (first_pos (List.concat (map cmd_toks ns0))) ns0).
-  assert (Hwb : wf_body true contents).
-  { split; [reflexivity|]. split; [apply unplz_wf, Hwc | apply (unplz_no_adjacent lexq nameok), Hwc]. }
-  assert (Etoks : msg_toks [] children = body_toks contents) by (symmetry; apply (unplz_toks lexq nameok), Hwc).
-  assert (Eplz : plz_children (children_of contents) = children) by (apply (plz_unplz lexq nameok children [] Hwc)).
+  assert (Hwb : wf_body true contents) by (split; [reflexivity|]; split; assumption).
+  assert (Etoks : msg_toks [] children = body_toks contents) by (symmetry; exact Etoks0).
+  change ns0 with (children_of contents) in Eplz.
   assert (Hcs : (csize contents <= n)%nat).
-  { pose proof (unplz_size children []). cbn [csize] in Hsz |- *. fold ns0 in H. cbv iota in H. unfold contents. cbn [csize]. lia. }
+  { cbn [csize] in Hsz |- *. unfold contents. cbn [csize]. unfold lsize in Hsz0. lia. }
   assert (Hat : msg_attrs unq ((match meaning with [] => [] | _ :: _ => attr_toks v_meaning (quoted_attr meaning) end) ++ attr_toks v_desc (quoted_attr desc))
                           meaning desc).
   { unfold quoted_attr. destruct (go_quote desc) as [qd|] eqn:Ed; [|contradiction Hqd; reflexivity].
@@ -559,8 +540,42 @@ Proof.
   rewrite Etoks. rewrite <- Eplz at 1. norm_app. rewrite (app_assoc _ (attr_toks v_desc (quoted_attr desc))).
   cbn [close_tag app].
   eapply Tag_msg with (u := kw pit_MsgEnd 0) (rd := T_rdelim) (rd2 := T_rdelim);
-    [reflexivity | exact Hat | reflexivity | | reflexivity | rewrite Eplz; apply (wf_children_no_plural lexq nameok children [] Hwc)].
-  apply IHB; [exact Hcs | exact Hwb | reflexivity | reflexivity].
+    [reflexivity | exact Hat | reflexivity | | reflexivity | rewrite Eplz].
+  - apply IHB; [exact Hcs | exact Hwb | reflexivity | reflexivity].
+  - destruct (existsb is_plural children) eqn:Epl; [|reflexivity]. rewrite (Honly eq_refl). reflexivity.
+Qed.
+
+(* ---- {plural} as a command of a body inside a {msg} ---- *)
+Lemma wf_pcases_plural : forall cases, wf_pcases (fun l => allP (wf_cmd true) l /\ no_adjacent_text l) cases ->
+  forallb is_pcase cases = true /\ forall dflt, allP (wf_cmd true) dflt /\ no_adjacent_text dflt ->
+  wf_cases true (map sw_of_case cases ++ [sw_default dflt]).
+Proof.
+  induction cases as [|c r IH]; intros Hw.
+  - split; [reflexivity|]. intros dflt [Hd1 Hd2]. cbn [map app sw_default wf_cases allP]. repeat split; assumption.
+  - destruct c; try (exfalso; exact Hw). destruct Hw as (Hv0 & Hv1 & [Hb1 Hb2] & Hr). destruct (IH Hr) as [Hp Hc].
+    split; [exact Hp|]. intros dflt Hd. cbn [map app sw_of_case wf_cases allP wf_expr]. repeat split; try assumption; try discriminate.
+    apply Hc, Hd.
+Qed.
+
+Lemma ok_plural m p nm v cases dflt : (csize (NMsgPlural p nm v cases dflt) <= S n)%nat -> CmdOK m (NMsgPlural p nm v cases dflt).
+Proof.
+  intros Hsz Hwf Hrt l2. destruct (proj1 (wf_cmd_plural lexq nameok _ _ _ _ _ _) Hwf) as (-> & -> & Hwv & Hwcs & Hwd). clear Hwf.
+  destruct (wf_pcases_plural cases Hwcs) as [Hpc Hwsw]. specialize (Hwsw dflt Hwd).
+  set (swcs := map sw_of_case cases ++ [sw_default dflt]) in *.
+  assert (Hszsw : forall c, In c swcs -> (csize c <= S n)%nat).
+  { intros c Hc. cbn [csize] in Hsz. apply in_app_or in Hc. destruct Hc as [Hc|[<-|[]]].
+    - apply in_map_iff in Hc. destruct Hc as (c0 & <- & Hc0). rewrite csize_sw_of_case.
+      pose proof (list_sum_In csize c0 cases Hc0). lia.
+    - cbn [sw_default csize]. lia. }
+  destruct (sw_chain true p pit_PluralEnd v l2 (or_intror eq_refl) swcs [] Hwsw Hszsw ltac:(reflexivity)) as (u & l' & E & Hu & HL).
+  cbn [app] in HL. unfold swcs in E. rewrite (sw_toks_plural dflt cases Hpc) in E.
+  exists (kw pit_Plural p), (tokens_of v ++ T_rdelim :: T_ldelim :: u :: l'). split; [|split; [cbn; tauto|]].
+  - rewrite cmd_toks_plural. unfold plural_toks. rewrite <- E. rewrite <- !app_assoc. reflexivity.
+  - change p with (t_pos (kw pit_Plural p)) at 2.
+    eapply Tag_plural with (rd := T_rdelim) (cs := swcs); [reflexivity | | reflexivity | | ].
+    + apply parse_show; [exact Hwv | reflexivity].
+    + apply SwLoop_ld; [reflexivity | exact HL].
+    + intros s. apply (plural_cases_ok inlen dflt cases [] s Hpc).
 Qed.
 
 (* ---- {css} ---- *)
@@ -599,6 +614,7 @@ Proof.
   - apply ok_let_value.
   - apply ok_let_content, Hsz.
   - apply ok_msg, Hsz.
+  - apply ok_plural, Hsz.
 Qed.
 End Step.
 
